@@ -503,6 +503,13 @@ func specParse(n *Node, cfg SpecCfg, in any, dst reflect.Value, path string, loc
 				return
 			}
 			specParse(n.Elem, cfg, s, dst, path, loc, out)
+		case "ptr":
+			// a pointer result is looked through; a nil pointer is no value at all
+			if strings.Contains(s, "none") {
+				specParse(n.Elem, cfg, nil, dst, path, loc, out)
+				return
+			}
+			specParse(n.Elem, cfg, strings.TrimSpace(s), dst, path, loc, out)
 		default:
 			out.unknown("preprocess function %s", n.PreFn)
 		}
